@@ -5,6 +5,7 @@ package clos
 import (
 	"sort"
 	"strconv"
+	"strings"
 	"unsafe"
 
 	"github.com/ohler55/slip"
@@ -84,8 +85,8 @@ func (obj *StandardObject) setSlot(s *slip.Scope, sd *SlotDef, value slip.Object
 			slip.TypePanic(s, depth, sd.name, value, slip.ObjectString(sd.argType))
 		}
 	}
-	if sd.classStore {
-		obj.Type.Vars()[sd.name] = value
+	if owner := obj.Type.classSlotOwners()[sd.name]; owner != nil {
+		_ = owner.SetSlotValue(slip.Symbol(sd.name), value)
 	} else {
 		obj.vars[sd.name] = value
 	}
@@ -160,13 +161,24 @@ func (obj *StandardObject) SlotNames() []string {
 	for k := range obj.Type.Vars() {
 		names = append(names, k)
 	}
+	for k := range obj.Type.classSlotOwners() {
+		if _, has := obj.Type.Vars()[k]; !has { // inherited
+			names = append(names, k)
+		}
+	}
 	return names
 }
 
 // SlotValue return the value of an instance variable.
 func (obj *StandardObject) SlotValue(sym slip.Symbol) (value slip.Object, has bool) {
 	if value, has = obj.HasSlots.SlotValue(sym); !has {
-		value, has = obj.Type.SlotValue(sym)
+		if value, has = obj.Type.SlotValue(sym); !has {
+			// A class allocated slot is shared with the superclass that
+			// defines it.
+			if owner := obj.Type.classSlotOwners()[strings.ToLower(string(sym))]; owner != nil {
+				value, has = owner.SlotValue(sym)
+			}
+		}
 	}
 	return
 }
@@ -174,7 +186,11 @@ func (obj *StandardObject) SlotValue(sym slip.Symbol) (value slip.Object, has bo
 // SetSlotValue sets the value of an instance variable.
 func (obj *StandardObject) SetSlotValue(sym slip.Symbol, value slip.Object) (has bool) {
 	if has = obj.HasSlots.SetSlotValue(sym, value); !has {
-		has = obj.Type.SetSlotValue(sym, value)
+		if has = obj.Type.SetSlotValue(sym, value); !has {
+			if owner := obj.Type.classSlotOwners()[strings.ToLower(string(sym))]; owner != nil {
+				has = owner.SetSlotValue(sym, value)
+			}
+		}
 	}
 	return
 }
